@@ -105,6 +105,19 @@ theorem closed_is_final (e : Bool) (st : RState) (h : st.closed ≠ none) (chunk
 theorem every_pair_authenticated : ∀ t ∈ Gen.C01.pairs, 8 ≤ t.2.2.2.1 := by
   decide +kernel
 
+/-- **Each direction has its own keys**: `send_newkeys` derives the six keys with the six letters of RFC 4253 §7.2
+    (IV, encryption key and integrity key client→server with A, C, E; server→client with B, D, F), all different,
+    and gives each direction's cipher object the keys of that direction — the `IntCtxt` hypothesis is about ONE
+    direction's context; a key shared between the directions would let a packet of the opposite direction pass
+    (regenerated from the AST of `send_newkeys` on every run). -/
+theorem key_letters_rfc :
+    Gen.C01.keyLetters = [("enc_key_cs", 67), ("enc_key_sc", 68), ("iv_cs", 65), ("iv_sc", 66),
+                          ("mac_key_cs", 69), ("mac_key_sc", 70)] ∧
+    (Gen.C01.keyLetters.map (·.2)).Nodup ∧
+    Gen.C01.cipherKeys = [("next_enc_cs", "enc_key_cs", "iv_cs", "mac_key_cs"),
+                          ("next_enc_sc", "enc_key_sc", "iv_sc", "mac_key_sc")] := by
+  refine ⟨by decide, by decide, by decide⟩
+
 /-! ### non-vacuity: the ideal channel meets every hypothesis -/
 
 /-- the ideal authenticated channel over a toy sealed form satisfies ciphertext integrity by construction -/
